@@ -59,7 +59,30 @@ def oracle_pool(line, go):
     return None
 
 
+def retry_nontrivial(line, go):
+    return "attempts=1 " not in go
+
+
+def oracle_retry(line, go):
+    """C11 read off the implementation's own record: RoundTrip says "retry" only when no server was given the request
+    (every HEADERS that reached a server was disclaimed by GOAWAY), and never makes more than four attempts."""
+    if go.startswith("HANG"):
+        return "retry: RoundTrip did not return: " + go
+    kv = dict(x.split("=") for x in go.split() if "=" in x)
+    if "A" in kv and kv["A"] != "nil":
+        return "a request at or below the GOAWAY's last-stream-id did not complete: the connection went with it (%s)" % go
+    if kv.get("retry") == "1" and int(kv.get("processed", "0")) > 0:
+        return "RoundTrip said retry for a request a server had processed (%s)" % go
+    if int(kv.get("attempts", "0")) > 4:
+        return "RoundTrip made %s attempts" % kv.get("attempts")
+    return None
+
+
 SUITES = {
+    "retry": {
+        "n_quick": 120, "n_thorough": 3000,
+        "nontrivial": retry_nontrivial,
+    },
     "pool": {
         "n_quick": 1500, "n_thorough": 40000,
         "nontrivial": pool_nontrivial,
@@ -67,9 +90,10 @@ SUITES = {
 }
 
 # properties (configured elsewhere) that also run this suite and count Props/Pool.v among their theorems
-ALSO = {"pool": ["C11", "C12", "C18"]}
-ALSO_ORACLES = {"pool": oracle_pool}
+ALSO = {"pool": ["C11", "C12", "C18"], "retry": ["C11"]}
+ALSO_ORACLES = {"pool": oracle_pool, "retry": oracle_retry}
 ALSO_PROPS = {"pool": "Pool"}
-ALSO_ASSUME = {"pool": "client.go's pool (pickConn, createConn, onConnectionDropped, Client.Close) hand-translated to Impl/ClientPool.v; "
+ALSO_ASSUME = {"retry": "RoundTrip's loop (client.go) is the Gallina function round_trip over attempt outcomes (Proofs/CliResRetry.v); kept honest by the `retry` suite: the real Client.RoundTrip against scripted connections (GOAWAY before processing, MAX_CONCURRENT_STREAMS=0, RST_STREAM, 200, dial and handshake failures); replacement dials of dropped connections are refused by the harness so that the k-th dial is the k-th attempt's",
+               "pool": "client.go's pool (pickConn, createConn, onConnectionDropped, Client.Close) hand-translated to Impl/ClientPool.v; "
                        "Conn.Closed()/CanOpenStream() are per-connection inputs changed by environment events; Conn.Close is two steps "
                        "(CAS + transport close, then the onDisconnect callback); kept honest by the `pool` differential run on the real Client"}
